@@ -179,12 +179,34 @@ def c14(ctx):
     return core.finish(ctx, violations, cov, ["attach points: root (package-level and method), zip, jar (leaf), text/plain, json, earlier extensions"])
 
 
+def _apalache_rwlock(ctx):
+    """Inductive invariant of the lock discipline (RWLock.tla) with Apalache: unbounded in the
+    number of steps for 5 processes. Best effort: a tool failure is reported, not fatal."""
+    import subprocess
+    steps = [("Init => IndInv", ["--init=Init", "--inv=IndInv", "--length=0"]),
+             ("IndInv /\\ Next => IndInv'", ["--init=IndInv", "--inv=IndInv", "--length=1"]),
+             ("IndInv => NoWriterWhileReading", ["--init=IndInv", "--inv=NoWriterWhileReading", "--length=0"])]
+    out = []
+    for name, args in steps:
+        try:
+            p = subprocess.run(["apalache-mc", "check", "--cinit=CInit"] + args + ["--out-dir=" + os.path.join(ctx.scratch, "apalache-out"), "RWLock.tla"],
+                               cwd=ctx.scratch, capture_output=True, text=True, timeout=300)
+            ok = "EXITCODE: OK" in p.stdout
+            if not ok and "EXITCODE: ERROR (12)" in p.stdout:
+                raise core.Infra("Apalache found a counterexample to the inductive invariant of RWLock.tla (%s)" % name)
+            out.append(dict(obligation=name, discharged=ok))
+        except (OSError, subprocess.TimeoutExpired) as e:
+            out.append(dict(obligation=name, discharged=False, note=str(e)[:200]))
+    return out
+
+
 def c06(ctx):
     prop = "C06"
     quick = ctx.tier == "quick"
     ctx.build_harness()
     ctx.build_harness(race=True)
     cov = {}
+    cov["apalache_inductive_invariant"] = _apalache_rwlock(ctx)
     # 1. design: lock discipline + linearizability, all interleavings
     runs = []
     for cfg in (["MC_Sys_conc_q.cfg", "MC_Sys_conc3_q.cfg", "MC_Sys_live.cfg"] if quick else ["MC_Sys_conc.cfg", "MC_Sys_conc3_q.cfg", "MC_Sys_live.cfg"]):
@@ -270,6 +292,14 @@ def c06(ctx):
     ctx.vdrive(["conctrace", "-notrace", "-runs", 8 if quick else 64, "-goroutines", 8, "-ops", 400 if quick else 2000, "-seed", ctx.seed + 7, "-out", rp2],
                race=True, env={"GORACE": "log_path=%s exitcode=0" % os.path.join(ctx.scratch, "race-stress")})
     srep = ctx.report(rp2)
+    # 5. corpus-wide stress: concurrent results must equal the sequential ones; fresh charset labels; -race
+    rp3 = os.path.join(ctx.scratch, "concstress.json")
+    ctx.vdrive(["concstress", "-corpus", CORPUS, "-rounds", 150 if quick else 2000, "-seed", ctx.seed + 11, "-out", rp3],
+               race=True, env={"GORACE": "log_path=%s exitcode=0" % os.path.join(ctx.scratch, "race-corpus")}, timeout=7000)
+    xrep = ctx.report(rp3)
+    violations += [v for v in xrep["violations"] if v["property"] == prop]
+    srep["evaluations"] += xrep["evaluations"]
+    cov["corpus_stress"] = dict(calls=xrep["evaluations"], samples=xrep["extra"]["samples"], fresh_charset_labels=xrep["extra"]["fresh_charset_labels"])
     races = _race_reports(ctx)
     seen = set()
     for rc in races:
